@@ -1,6 +1,6 @@
 (* C06 — proof-number solver verdicts agree with the game-theoretic truth.
    Only statements, `exact`, and Print Assumptions live here.  Models: Pn.v (prove/pn.go without PN-squared; entry point
-   PnRun.pn_run with the constants of /repo), Dfpn.v (prove/dfpn.go).  Proofs: AndOr.v, AndOrS.v, PnFacts.v, PnRunFacts.v.
+   PnRun.pn_run with the constants of /repo), Dfpn.v (prove/dfpn.go).  Proofs: AndOr.v, AndOrS.v, PnFacts.v, PnRunFacts.v, DfpnFacts.v.
 
    The game the claims are about (PnFacts.v), for the attacker colour aw:
      succs basis p   legal successors of p: every move of AllMoves that Position.Move accepts
@@ -10,7 +10,7 @@
    Wb k h p     = "won within k plies on the line of play h" where the third occurrence (Position.Equal) of a position on
                   the line is not a win (AndOrS.v). *)
 From Coq Require Import NArith ZArith List Bool.
-Require Import Board Move GameOver AndOr AndOrS Pn PnRun PnFacts PnRunFacts.
+Require Import Board Move GameOver Eval Search AndOr AndOrS Pn PnRun PnFacts PnRunFacts Dfpn DfpnFacts.
 Require Import Generated.Consts.
 Import ListNotations.
 Open Scope N_scope.
@@ -84,8 +84,33 @@ Theorem C06_pn_disproven_attractor_partial :
 Proof. exact pn_disproven_attractor. Qed.
 Print Assumptions C06_pn_disproven_attractor_partial.
 
+(* 5. dfpn_proven_sound, for DFPNSolver.Prove as modelled by Dfpn.prove (fresh solver, any table size, any fuel, attacker aw,
+   whoever is to move), for a set Sp of positions that contains the root and is closed under the generated legal moves
+   (e.g. everything reachable from the root), under explicit hypotheses on Sp:
+     boards up to 8x8; NoCollisionOn Sp (positions of Sp with equal hash have the same value, side to move and end of game);
+     no position of Sp has hash 0 (the key of an empty slot); a live position has a move; C19 (an immediate threat of the
+     attacker reported by CountThreats is a forced win).
+   Then `proven` (result 1: phi = 0 when the attacker is to move, delta = 0 otherwise) implies a forced win of the attacker.
+   The same holds for a solver whose table already holds sound entries (DfpnFacts.dfpn_proven_sound_from), i.e. for a solver
+   reused over several positions with the same attacker. *)
+Theorem C06_dfpn_proven_sound :
+  forall (basis : list N) (aw : bool) (Sp : position -> Prop),
+    (forall p m q, Sp p -> In m (all_moves p) -> dmv basis p m = Ok q -> Sp q) ->
+    (forall p, Sp p -> size p <= 8) ->
+    (forall p q, Sp p -> Sp q -> hash_of p = hash_of q ->
+       (W basis aw p <-> W basis aw q) /\ to_move_white p = to_move_white q /\ terminal aw p = terminal aw q) ->
+    (forall p, Sp p -> hash_of p <> 0) ->
+    (forall p, Sp p -> terminal aw p = None -> all_moves p <> []) ->
+    (forall p, Sp p -> terminal aw p = None -> solve p <> None -> attp aw p = true -> W basis aw p) ->
+    forall lfuel dfuel entries g s e w,
+      Sp g -> prove basis aw lfuel dfuel entries g = (s, e, w) -> result_of aw g e = 1 ->
+      exists n, wn position (succs basis) (terminal aw) (attp aw) n g = true.
+Proof. exact dfpn_proven_sound. Qed.
+Print Assumptions C06_dfpn_proven_sound.
+
 (* Not proved (tested by the check: model = solver on every generated run, oracle = exact retrograde solution):
-     dfpn_proven_sound    : NoCollisionOn ... -> threats_sound (C19) -> dfpn p = (Proven, m) -> won p /\ won (p.m)
-     dfpn_disproven_sound : open in the design (a bound derived from a repetition on one path is reused on other paths);
-                            the oracle hunts for a wrong `disproven` on shuffle-prone roots and has found none.
+     the move returned by DFPN with `proven` (the oracle judges it);
+     dfpn_disproven_sound : open in the design (a bound derived from a repetition on one path is stored in the table and
+                            reused on other paths); the oracle hunts for a wrong `disproven` on the cyclic region of the
+                            solved graphs (positions where the attacker can only shuffle) and has found none;
      PN-squared (the model has no PN-squared). *)
